@@ -30,7 +30,7 @@ out = ["# Independently seeded code changes", "",
        "`git -C /repo apply`; `tools/seeded_try.py <ID> <A|B> [--apply]` runs the checks against it (default: mapped over /repo with",
        "`-overlay`, so /repo is untouched while background runs use it; `--apply` does the literal apply / check / `git checkout -- .`).", "",
        "Letters A, B: first round (20 agents); C, D: second round (20 more agents, asked for less obvious mechanisms); E, F: third round",
-       "(20 more agents); G, H: fourth round (20 more agents, who also audited the unmodified tree: see DESIGN.md 8.7); I, J: sixth round (20 more agents, against the tree with the round-five repairs; the fifth round was audits only). `patch.orig.diff`, where present, is the",
+       "(20 more agents); G, H: fourth round (20 more agents, who also audited the unmodified tree: see DESIGN.md 8.7); I, J: sixth round (20 more agents, against the tree with the round-five repairs; the fifth round was audits only); K, L: seventh round (20 more agents, each told what all earlier rounds had changed for its property). `patch.orig.diff`, where present, is the",
        "agent's patch as delivered; `patch.diff` is the same change rebased onto the current /repo HEAD. `neutralised` = a later `fix:` commit removed the situation the change needs: its own demonstration passes on HEAD + patch.",
        "`first` = verdict of the owning check's quick tier as it stood when the change arrived; `now` = after the check was strengthened",
        "(what was added is listed in DESIGN.md 8.7).", "",
